@@ -120,6 +120,7 @@ type Contract struct {
 	Recovers       bool                // the function must call the builtin recover() directly (it is meant to run deferred)
 	CallsAfter     [][2]string         // structural: (A, B) every call of B is dominated by a call of A
 	CallsInEntry   []string            // structural: static calls that the entry block must contain
+	AlwaysCalls    []string            // structural: every return is dominated by a call of the named function / interface method
 	AlwaysSends    bool                // structural: every return is dominated by a blocking channel send of the function itself
 	StructuralOnly string              // reason why the body is not executed symbolically (only structural obligations are decided)
 	ClosureFirst   [][2]string         // (ordinal of the function literal, callee) structural obligations
@@ -606,6 +607,12 @@ func (db *SpecDB) loadText(path, text, pkgHint string) error {
 				}
 			case "always-sends":
 				cur.AlwaysSends = true
+			case "always-calls":
+				// structural: `always-calls F` — no path returns without having called F (static callee by suffix,
+				// interface method by name)
+				if f := strings.TrimSpace(rest); f != "" {
+					cur.AlwaysCalls = append(cur.AlwaysCalls, f)
+				}
 			case "structural-only":
 				cur.StructuralOnly = strings.TrimSpace(rest)
 				if cur.StructuralOnly == "" {
